@@ -84,6 +84,9 @@ u64 Timer::GetMaxSkip() const {
 }
 
 void Timer::Skip(u64 ticks) {
+    if (ticks == 0)
+        return;
+
     if (pause || count_mode == CountMode::EventCount)
         return;
 
